@@ -106,7 +106,7 @@ Section WithDigest.
 
   Lemma fstep_calm w p : fstep H (calm_w w) p = (calm_w (fst (step H w p)), snd (step H w p)).
   Proof.
-    destruct p as [v items|v items|o|os|o|d ents|o b m t|o|o|o alg vv| |os|v items]; try reflexivity.
+    destruct p as [v items|v items|o|os|o|d ents|o b m t|o|o|o alg vv| |os|v items|o]; try reflexivity.
     - (* add *)
       unfold fstep, step. rewrite fadd_calm. reflexivity.
     - (* add through a read-only handle *)
